@@ -39,9 +39,11 @@ class _World(object):
         self.nitem += 1
         return real.SimItem(self.B.current[kind % 3], "%s.i%d" % (who, self.nitem), "k%d" % self.nitem, self.B)
 
-    def _body(self, fnid, inst, a, b):
+    def _body(self, fnid, inst, a, b, c=0):
         W = self
         key = (fnid, inst, a, b)
+        if c != 0:
+            W.out.append(("arguments", "body of %r received c=%r" % (key, c)))
         t = A.get_active_task()
         W.body_runs[id(t)] = W.body_runs.get(id(t), 0) + 1
         if W.body_runs[id(t)] > 1:
@@ -64,6 +66,11 @@ class _World(object):
                 W.running_tasks.pop()
                 try:
                     yield W.item(fnid + i, "b%d" % serial)
+                except GeneratorExit:
+                    if a == 1:
+                        # a body whose clean-up fails when it is closed while suspended
+                        raise SimError("body-close-fails")
+                    raise
                 finally:
                     W.running.append(key)
                     W.running_tasks.append(t)
@@ -88,8 +95,8 @@ class _World(object):
         def make_function(fnid):
             @deduplicate()
             @A.asynq()
-            def f(a, b=0):
-                return (yield from W._body(fnid, None, a, b))
+            def f(a, b=0, *, c=0):
+                return (yield from W._body(fnid, None, a, b, c))
             return f
 
         def make_class(fnid_m, fnid_s):
@@ -99,14 +106,14 @@ class _World(object):
 
                 @deduplicate()
                 @A.asynq()
-                def m(self, a, b=0):
-                    return (yield from W._body(fnid_m, self.n, a, b))
+                def m(self, a, b=0, *, c=0):
+                    return (yield from W._body(fnid_m, self.n, a, b, c))
 
                 @deduplicate()
                 @A.asynq()
                 @staticmethod
-                def s(a, b=0):
-                    return (yield from W._body(fnid_s, None, a, b))
+                def s(a, b=0, *, c=0):
+                    return (yield from W._body(fnid_s, None, a, b, c))
             return K
 
         self.f = [make_function(0), make_function(1)]
@@ -134,6 +141,10 @@ class _World(object):
             return (), {"a": a, "b": b}
         if form == "default" and b == 0:
             return (a,), {}
+        if form == "kwonly":
+            return (a, b), {"c": 0}  # the keyword-only parameter spelled out with its default
+        if form == "allkw_kwonly":
+            return (), {"a": a, "b": b, "c": 0}
         return (a, b), {}
 
     def call(self, who, cs):
@@ -173,6 +184,23 @@ class _World(object):
             self.tasks.append(t)
         return t
 
+    def fail_externally(self, cs):
+        """Completes the in-flight task of a key from outside (e.g. a timeout) while it is suspended."""
+        fnid, inst, a, b, form = cs
+        fnid %= 6
+        fn, inst_n = self._callable(fnid, inst)
+        key = (fnid, inst_n, a, b)
+        m = self.inflight.get(key)
+        if m is None or m.is_computed() or any(m is x for x in self.running_tasks) or self.body_runs.get(id(m), 0) == 0:
+            return
+        self.probe("failed_externally_while_suspended")
+        try:
+            m.set_error(SimError("external-failure:%r" % (key,)))
+        except SimError:
+            self.probe("body_close_failed")
+        if m.is_computed():
+            self.inflight.pop(key, None)
+
     def dirty(self, cs):
         fnid, inst, a, b, form = cs
         fnid %= 6
@@ -202,7 +230,7 @@ class C12(object):
                 f, i, a, b = rng.choice(keyspace)
             else:
                 f, i, a, b = rng.randint(0, 5), rng.randint(0, 2), rng.randint(0, 3), rng.randint(0, 2)
-            return [f, i, a, b, rng.choice(["pos", "kw", "allkw", "default"])]
+            return [f, i, a, b, rng.choice(["pos", "kw", "allkw", "default", "kwonly", "allkw_kwonly"])]
 
         clients = []
         for _ in range(nclients):
@@ -215,8 +243,10 @@ class C12(object):
                     script.append(["c", cs()])
                 elif r < 0.65:
                     script.append(["yh"])
-                elif r < 0.78:
+                elif r < 0.74:
                     script.append(["d", cs()])
+                elif r < 0.8:
+                    script.append(["x", cs()])
                 else:
                     script.append(["b", rng.randint(0, 2)])
             clients.append(script)
@@ -254,6 +284,8 @@ class C12(object):
                                 got.append(("E", e.tag))
                     elif op == "d":
                         W.dirty(st[1])
+                    elif op == "x":
+                        W.fail_externally(st[1])
                     elif op == "b":
                         yield W.item(st[1], "c%d" % ci)
                 except SimError as e:
